@@ -16,13 +16,16 @@ TRUSTED = [
     "timers fire in deadline order",
     "worker-thread changes: set_value runs in a real thread (publish defers through call_soon_threadsafe); the worker's "
     "validate+assign+notify is modelled as one atomic step (sub-statement preemption of set_value is C20's subject); "
-    "C12_quiescent is proved for histories without worker-thread changes only (C12_quiescent_partial), its full statement "
-    "is refuted by C12_quiescent_fails (finding C12:worker-change-overtaken-by-newer-change)",
+    "C12_quiescent is proved for histories without worker-thread changes only (C12_quiescent_partial); for the code "
+    "without design/fixes/C12-stale-handoff.patch its full statement is refuted by C12_quiescent_fails (finding "
+    "C12:worker-change-overtaken-by-newer-change); with that patch histories with worker-thread changes are covered by "
+    "the differential run and the oracle, not by a theorem",
     "setter callbacks of three kinds (echo the written value, set a different value, set another characteristic) on "
-    "non-always-null characteristics; no raising callbacks (DESIGN section 9), no getter / service / accessory callbacks; "
+    "non-always-null characteristics, and raising callbacks (write answered -70402); no getter / service / accessory callbacks; "
     "valid in-range integer values; PUTs with one or several queries (scene writes), on a standalone accessory or on a "
     "bridge with two accessories sharing their iids (the model's characteristic index stands for an (aid, iid) pair); "
-    "C12_quiescent_partial is proved without callbacks",
+    "C12_quiescent_partial is proved for every callback configuration satisfying CbOK (failed-write repair applied, "
+    "state-changing callbacks on characteristics that are not always-null)",
     "address-reuse hypothesis (stated in the theorems): a peer address reconnects only after the loss of its "
     "previous connection was processed",
     "harness: virtual-time loop, fake transports, EVENT/HTTP decoder, generators, oracles in harness/ref/sysev_*.py",
@@ -31,7 +34,7 @@ TRUSTED = [
 
 def scripts_for(ctx: Ctx):
     rng = ctx.rng
-    scripts = list(gen.boundary_c12()) + gen.resub_family() + gen.worker_family() + gen.callback_family() + gen.scene_family()
+    scripts = list(gen.boundary_c12()) + gen.resub_family() + gen.worker_family() + gen.callback_family() + gen.raise_family() + gen.scene_family()
     for _ in range(ctx.n(800, 20000)):
         scripts.append(gen.random_script(rng, 30, "c12"))
     scripts += gen.exhaustive_c12(2 if ctx.quick else 4)
@@ -56,7 +59,7 @@ def run(ctx: Ctx):
 
 
 def search(ctx: Ctx):
-    scripts = list(gen.boundary_c12()) + gen.resub_family() + gen.worker_family() + gen.callback_family() + gen.scene_family() + gen.exhaustive_c12(3) + [gen.random_script(ctx.rng, 30, "c12") for _ in range(4000)]
+    scripts = list(gen.boundary_c12()) + gen.resub_family() + gen.worker_family() + gen.callback_family() + gen.raise_family() + gen.scene_family() + gen.exhaustive_c12(3) + [gen.random_script(ctx.rng, 30, "c12") for _ in range(4000)]
     base.evaluate(ctx, scripts, "C12", compare_model=False)
 
 
